@@ -35,6 +35,8 @@ ASSUMPTIONS = [
     "device-kind messages sent by a client may be relayed to other clients (the router routes by kind by design)",
     "liveness probes after the hostile message: a valid getProperties on the same connection is answered, a valid write is applied, a driver-side update reaches the sender and the observer",
 ]
+CHUNK_WALL_S = 90  # ordinary chunks take a few seconds
+HANG_S = 30
 QUICK_RUNS = 6000
 QUICK_BUDGET_S = 150
 THOROUGH_BUDGET_S = 360
@@ -115,7 +117,11 @@ def hostile(rng, entry, dev, v):
         return {"xml": wrap(cx), "valid": [cv], "parser_ok": True, "entry": "valid_control"}
     if entry == "bad_value_parser_rejects":
         if kind == "Number":
-            return {"xml": wrap(f'<oneNumber name="{e["name"]}">twelve</oneNumber>'), "valid": [], "parser_ok": False}
+            # not numbers - incl. long digit runs that stop being a number at the very end (a value with its unit, an exponent,
+            # a second decimal point): whatever validates number syntax has to say no in reasonable time
+            txt = rng.choice(["twelve", "twelve", "314159265358979323846264338327950288419716939937510 arcsec",
+                              "1" * 48 + "e5", "12345678901234567890123456789012345678901234567890.6.7", "0:" + "9" * 60 + "x"])
+            return {"xml": wrap(f'<oneNumber name="{e["name"]}">{txt}</oneNumber>'), "valid": [], "parser_ok": False}
         if kind == "Switch":
             return {"xml": wrap(f'<oneSwitch name="{e["name"]}">Maybe</oneSwitch>'), "valid": [], "parser_ok": False}
         return {"xml": wrap(cx), "valid": [cv], "parser_ok": True, "entry": "valid_control"}
